@@ -264,7 +264,8 @@ def evaluate(plan, o):
     if not done_closes:
         v.append(viol("C14.K4" + sfx, end_ev, "close() started at t=%.6f never returned (run ended at t=%.3f)" % (cvt, o.end_vt)))
         return v, st, nontrivial
-    ret = first_close if first_close["end"] is not None else done_closes[0]
+    # whichever close() call returned first: from that instant on the promises of "after close() returns" hold
+    ret = min(done_closes, key=lambda op: (op["end"], op["end_iter"]))
     rvt = ret["end"]
     rev = next((e[0] for e in o.trace if e[3] == "op" and e[4] == "close.end" and e[5][0] == ret["id"]), end_ev)
     # ---- K3: after close() returned -------------------------------------------------------------------------
